@@ -20,13 +20,22 @@ CHECK = {
     "exhaustive": {"quick": False, "thorough": False},
     "stages": [
         {"name": "dags", "variant": "asan", "harness": "c03_csg_laziness.cpp",
-         "cases": {"quick": 160, "thorough": 5000},
+         "cases": {"quick": 160, "thorough": 2500},
          "params": {"maxLeaves": {"quick": 10, "thorough": 24}, "extraHistories": {"quick": 1, "thorough": 3}},
          "case_timeout": 600},
         {"name": "rewrites", "variant": "asan", "harness": "c03_csg_laziness.cpp",
-         "cases": {"quick": 64, "thorough": 800},
-         "params": {"bigN": {"quick": 1001, "thorough": 1500}, "deepN": {"quick": 400, "thorough": 1500},
-                    "chainN": {"quick": 3000, "thorough": 20000}},
+         "cases": {"quick": 64, "thorough": 240},
+         "params": {"bigN": {"quick": 1001, "thorough": 1300}, "deepN": {"quick": 400, "thorough": 1000},
+                    "chainN": {"quick": 3000, "thorough": 10000}},
+         "case_timeout": 900},
+        # parallel library (real TBB, MANIFOLD_PAR=1): BatchBoolean's task_group path and the Par branch of Compose
+        {"name": "dags-par", "variant": "tbb", "harness": "c03_csg_laziness.cpp", "tiers": ("thorough",),
+         "cases": {"quick": 0, "thorough": 400},
+         "params": {"maxLeaves": 24, "extraHistories": 2},
+         "case_timeout": 600},
+        {"name": "rewrites-par", "variant": "tbb", "harness": "c03_csg_laziness.cpp", "tiers": ("thorough",),
+         "cases": {"quick": 0, "thorough": 80},
+         "params": {"bigN": 1300, "deepN": 1000, "chainN": 10000},
          "case_timeout": 900},
     ],
     "assumptions": [
@@ -40,8 +49,9 @@ CHECK = {
         "volume agreement bound 2 tau x (total placed-leaf area) + 1e-12 scale^3 (the C02 bound)",
         "leaves are eps-valid by construction and every leaf and every reuse carries its own random rotation "
         "(general position); the touching-boxes family uses integer boxes on purpose (bounding boxes touch exactly)",
-        "g++ -O1 -fsanitize=address,undefined build of /repo's working tree, -DNDEBUG, MANIFOLD_PAR=-1 (the "
-        "task_group path of BatchBoolean is not exercised in this variant)",
+        "g++ -O1 -fsanitize=address,undefined build of /repo's working tree, -DNDEBUG, MANIFOLD_PAR=-1 ; the "
+        "thorough tier repeats both stages on the real-TBB build (MANIFOLD_PAR=1, -O2) so that BatchBoolean's "
+        "task_group path runs",
     ],
 }
 
